@@ -8,14 +8,13 @@ max_size = 10**6
 
 
 def max_pair_coverage(array1: npt.NDArray[np.int32], array2: npt.NDArray[np.int32]) -> float:
-    def hash_pair(el1: np.int32, el2: np.int32):
-        return (el1 * 1471343 - el2) % max_size
-
-    counts = np.zeros(max_size, dtype=np.int32)
     tot_len = len(array1)
-    for i in range(tot_len):
-        identifier = hash_pair(array1[i], array2[i])
-        counts[identifier] += 1
+
+    # Count every distinct (el1, el2) pair exactly: dense per-array codes give a collision-free 64-bit pair id
+    _, codes1 = np.unique(array1, return_inverse=True)
+    _, codes2 = np.unique(array2, return_inverse=True)
+    pair_ids = codes1.astype(np.int64) * (int(np.max(codes2)) + 1) + codes2.astype(np.int64)
+    _, counts = np.unique(pair_ids, return_counts=True)
 
     return np.max(counts) / tot_len
 
